@@ -1234,6 +1234,143 @@ func (r *c04Runner) refreshProbe(rc *c04Refresh) {
 	}
 }
 
+
+// ---------------------------------------------------------------------------------------------------------
+// temporal re-presentation: "has not expired" must hold at every presentation of a token, not only at the first one.
+// A token with a lifetime of a few seconds is presented while valid (must yield a session, otherwise the pair is
+// skipped), and the SAME raw token is presented to the SAME instance again after its exp: it must be refused.
+// "validate" pairs do the same through the session cookie: a stale session without refresh token is re-validated
+// against its own ID token on every request; once that token has expired the session must end.
+
+type c04Pair struct {
+	cfg      *c04Cfg
+	kind     string // bearer | validate
+	verifier int
+	variant  string
+	tag      string
+	b        *vfBrowser
+	mu       sync.Mutex
+	exp      time.Time
+	loginErr error
+}
+
+type c04PairObs struct {
+	Kind          string  `json:"kind"`
+	Exp           string  `json:"token_exp"`
+	FirstAt       string  `json:"first_presentation_at"`
+	First         c04Obs  `json:"first_presentation"`
+	SecondAt      string  `json:"second_presentation_at"`
+	Second        c04Obs  `json:"second_presentation"`
+	SecondsPast   float64 `json:"seconds_past_exp_at_second_presentation"`
+	Authorization string  `json:"authorization_variant,omitempty"`
+}
+
+func (r *c04Runner) temporal(cfgs []*c04Cfg) {
+	run := r.run
+	thorough := run.Env.Thorough()
+	var pairs []*c04Pair
+	n := 0
+	for ci, cfg := range cfgs {
+		pick := thorough || map[string]bool{"disc": true, "key-file": true, "jwks-url": true, "audclaim-azp": true, "extra-issuer": true, "custom-claims": true, "disc-redis": true}[cfg.Name]
+		if !pick {
+			continue
+		}
+		for vi := range cfg.Verifiers {
+			n++
+			pairs = append(pairs, &c04Pair{cfg: cfg, kind: "bearer", verifier: vi, variant: c04HeaderVariants[(n+int(run.Env.Seed))%len(c04HeaderVariants)], tag: fmt.Sprintf("tp-%s-%d", cfg.Name, n)})
+		}
+		if thorough || ci < 4 || cfg.Name == "skip-nonce" {
+			n++
+			pairs = append(pairs, &c04Pair{cfg: cfg, kind: "validate", tag: fmt.Sprintf("tv-%s-%d", cfg.Name, n)})
+		}
+	}
+	// validate pairs: ordinary logins, ten minutes in the past (quiescent point: nothing else is running), ID token lifetime 5 s
+	clock.Set(time.Now().Add(-10 * time.Minute))
+	vfParallel(len(pairs), len(pairs), func(i int) {
+		pr := pairs[i]
+		if pr.kind != "validate" {
+			return
+		}
+		loginSub := "login-" + pr.tag
+		id := c04TokenIdent(pr.tag, "full")
+		r.handlers.Store(loginSub, func(grant string, claims map[string]interface{}) (string, bool) {
+			c := c04Claims(c04Baseline(pr.cfg, false), pr.cfg, r.idp2.Issuer, claims, id, pr.tag)
+			exp := time.Unix(time.Now().Unix()+5, 0)
+			c["exp"] = exp.Unix()
+			pr.mu.Lock()
+			pr.exp = exp
+			pr.mu.Unlock()
+			return vfMint(c, vfMintOpts{}), true
+		})
+		pr.b = vfNewBrowser("")
+		_, _, pr.loginErr = pr.b.Login(pr.cfg.P, vfIdentity{Sub: loginSub, Email: "unused@idp.test", NoRefreshToken: true, Profile: c04Profile(pr.tag)}, "/")
+		r.handlers.Delete(loginSub)
+	})
+	clock.Reset()
+	vfParallel(len(pairs), len(pairs), func(i int) {
+		pr := pairs[i]
+		cfg := pr.cfg
+		var send func(q *vfReq) *vfResp
+		var raw string
+		var exp time.Time
+		if pr.kind == "bearer" {
+			s := c04Baseline(cfg, cfg.Verifiers[pr.verifier].Extra)
+			c := c04Claims(s, cfg, r.idp2.Issuer, map[string]interface{}{"jti": pr.tag}, c04TokenIdent(pr.tag, "full"), pr.tag)
+			exp = time.Unix(time.Now().Unix()+3, 0)
+			c["exp"] = exp.Unix()
+			raw = vfMint(c, vfMintOpts{})
+			hv := c04AuthHeader(pr.variant, raw)
+			send = func(q *vfReq) *vfResp { return cfg.P.Do(q.H("Authorization", hv)) }
+		} else {
+			if pr.loginErr != nil {
+				run.Count("temporal_pairs_skipped_login_failed", 1)
+				return
+			}
+			pr.mu.Lock()
+			exp = pr.exp
+			pr.mu.Unlock()
+			send = func(q *vfReq) *vfResp { return pr.b.Send(cfg.P, q) }
+		}
+		po := c04PairObs{Kind: pr.kind, Exp: exp.Format(time.RFC3339), Authorization: pr.variant}
+		t1 := time.Now()
+		po.FirstAt = t1.Format(time.RFC3339Nano)
+		po.First = c04Observe(r.w, send)
+		if time.Now().After(exp.Add(-200*time.Millisecond)) || !po.First.session() || po.First.UserinfoCode != 200 {
+			// precondition not met (machine too slow for the short lifetime, or the token was not taken up): nothing to judge
+			run.Count("temporal_pairs_skipped_first_presentation_not_in_time", 1)
+			return
+		}
+		if d := time.Until(exp.Add(1500 * time.Millisecond)); d > 0 {
+			time.Sleep(d) // the token is expired by construction afterwards; the verdict is bracketed by the reading below
+		}
+		t2 := time.Now()
+		po.SecondAt = t2.Format(time.RFC3339Nano)
+		po.Second = c04Observe(r.w, send)
+		po.SecondsPast = t2.Sub(exp).Seconds()
+		cell := fmt.Sprintf("%s|%s|re-presentation-after-expiry|verifier=%d", pr.kind, cfg.Name, pr.verifier)
+		run.Eval(cell)
+		run.Count("temporal_pairs_judged_"+pr.kind, 1)
+		if po.Second.Panic != "" {
+			run.Violation("c04:panic", "panic on re-presentation: "+vfTrunc(po.Second.Panic, 200), po)
+			return
+		}
+		if t2.After(exp.Add(time.Second)) && po.Second.session() {
+			what := "bearer token"
+			if pr.kind == "validate" {
+				what = "stale cookie session (no refresh token) whose own ID token"
+			}
+			run.Violation("c04:expired-token-accepted-on-re-presentation", fmt.Sprintf("[%s] %s was honoured while valid and is STILL honoured %.1f s after its exp (same raw token, same instance; userinfo %d, upstream reached %v)", cfg.Name, what, po.SecondsPast, po.Second.UserinfoCode, po.Second.UpHit),
+				map[string]interface{}{"config": cfg.Name, "flags": cfg.P.Flags, "token": raw, "token_claims": vfJWTClaims(raw), "observed": po,
+					"steps": "1. present the token (Authorization header as named / session cookie of an ordinary login issued ten minutes ago with --cookie-refresh=1m and no refresh token) -> session; 2. wait until exp+1.5s; 3. present exactly the same again"})
+		}
+	})
+	if run.Counter("temporal_pairs_judged_bearer") < 3 || run.Counter("temporal_pairs_judged_validate") < 2 {
+		run.Inconclusive("too few temporal re-presentation pairs could be judged")
+		fmt.Printf("INCONCLUSIVE property=C04 reason=temporal re-presentation: only %d bearer / %d validate pairs judged\n", run.Counter("temporal_pairs_judged_bearer"), run.Counter("temporal_pairs_judged_validate"))
+		run.T.Fail()
+	}
+}
+
 // ---------------------------------------------------------------------------------------------------------
 
 func TestVerif_C04(t *testing.T) {
@@ -1241,7 +1378,8 @@ func TestVerif_C04(t *testing.T) {
 	run.SetRule("token grid = signature (13 variants) x iss (8) x audience shape incl. custom audience claim (25) x exp (6) x email_verified (4) x claim set (8): " +
 		"every single deviation from a valid token, (thorough) every pair of deviations, plus a seeded random sample of combinations; on the callback, refresh and bearer " +
 		"(4 Authorization variants, incl. extra JWT issuer) paths; per configuration kind (discovery / JWKS URL / key file / extra audiences / audience claims / allow-unverified / custom claims / user-id-claim / no profile / extra issuer / skip-nonce, cookie and Redis store). " +
-		"cell = (path, configuration, which clause of V is the ONLY failing one + its variant) or (path, configuration, valid, audience shape, claim set); multi-failure cases are trivial")
+		"cell = (path, configuration, which clause of V is the ONLY failing one + its variant) or (path, configuration, valid, audience shape, claim set); multi-failure cases are trivial. " +
+		"Temporal pairs: a token living 3-5 s is presented while valid and the same raw token again 1.5 s after its exp (bearer, per verifier; and through ValidateSession of a stale cookie session without refresh token)")
 	run.Assume("RSA verification of the reference uses crypto/rsa of the standard library", "the fake provider signs with one RSA key (kid k1); the extra issuer publishes the same key, so only iss/aud separate the two verifiers",
 		"V => session is not asserted (statement says 'only from'); refused valid tokens are counted as inconclusive")
 	w := vfNewWorld(t)
@@ -1260,6 +1398,7 @@ func TestVerif_C04(t *testing.T) {
 		}
 		cfg.P = p
 	}
+	r.temporal(cfgs)
 	for ci, cfg := range cfgs {
 		rng := rand.New(rand.NewSource(run.Env.Seed*1000003 + int64(ci)))
 		base := c04Baseline(cfg, false)
